@@ -19,12 +19,12 @@ tbvars == <<offset, nw, bits, reclaimed>>
 
 Full(o, b) == \A j \in o..(o + W - 1) : j \in b
 
-\* Compact's loop: drop leading all-ones words.
-RECURSIVE Compacted(_, _, _)
+\* Compact's loop: drop leading all-ones words (k of them).
+RECURSIVE LeadingFull(_, _, _)
+LeadingFull(o, n, b) == IF n > 0 /\ Full(o, b) THEN 1 + LeadingFull(o + W, n - 1, b) ELSE 0
 Compacted(o, n, b) ==
-    IF n > 0 /\ Full(o, b)
-    THEN Compacted(o + W, n - 1, {x \in b : x >= o + W})
-    ELSE <<o, n, b>>
+    LET k == LeadingFull(o, n, b)
+    IN <<o + k * W, n - k, IF k = 0 THEN b ELSE {x \in b : x >= o + k * W}>>
 
 \* What the queries return in the current state.
 Stored(j)  == j < offset + W * nw
@@ -64,6 +64,17 @@ SetF(st, idx) ==
              n1 == IF wi >= st[2] THEN wi + 1 ELSE st[2]
              s1 == <<st[1], n1, st[3] \cup {idx}, st[4]>>
          IN IF wi = 0 THEN CompactF(s1) ELSE s1
+
+\* Macro-step "Set(lo); Set(lo+1); ...; Set(hi-1)" for a range that lies entirely beyond the head word
+\* (lo >= offset + W): no call of it touches word 0, so no compaction happens in between and the result has a
+\* closed form.  Used to validate histories that fill thousands of words before one compaction drops them all
+\* (one trace event instead of 10^5).  MC_TailBitmap.RangeFormAgrees checks it against the fold of SetF.
+RangeOK(st, lo, hi) == lo >= st[1] + W /\ lo < hi
+SetRangeF(st, lo, hi) ==
+    LET wi == (hi - 1 - st[1]) \div W
+    IN <<st[1], IF wi >= st[2] THEN wi + 1 ELSE st[2], st[3] \cup (lo..(hi - 1)), st[4]>>
+RECURSIVE SetFold(_, _, _)
+SetFold(st, lo, hi) == IF lo >= hi THEN st ELSE SetFold(SetF(st, lo), lo + 1, hi)
 
 \* Structural invariants of the object itself.
 Aligned   == offset % W = 0
